@@ -1,7 +1,7 @@
 (* C14 — dimension sets behave as ordered sets of uniquely lettered dimensions.  Statements only. *)
 From Coq Require Import List Arith Bool.
 Import ListNotations.
-From Flodym Require Import Base.Env Model.Dims Model.SubArray Model.DimHeap Proofs.C14Proofs Proofs.C14Lookup.
+From Flodym Require Import Base.Env Model.Dims Model.SubArray Model.DimHeap Proofs.C14Proofs Proofs.C14Lookup Proofs.C14Xor.
 
 (* ordered-set laws (for sets with unique letters) *)
 Theorem C14_union_keeps_left_order_and_appends_new :
@@ -20,10 +20,22 @@ Theorem C14_difference_keeps_left_order :
 Proof. exact difference_spec. Qed.
 Print Assumptions C14_difference_keeps_left_order.
 
+Theorem C14_symmetric_difference_is_the_combination_of_the_differences :
+  forall x y, NoDup (letters x) -> NoDup (letters y) ->
+  xor_with x y = Ok (filter (fun d => negb (memb (dletter d) (letters y))) x
+                     ++ filter (fun d => negb (memb (dletter d) (letters x))) y).
+Proof. exact xor_spec. Qed.
+Print Assumptions C14_symmetric_difference_is_the_combination_of_the_differences.
+
 Theorem C14_plus_refuses_overlap :
   forall x y d, NoDup (letters x) -> In d x -> In (dletter d) (letters y) -> add_sets x y = Err.
 Proof. exact add_rejects_overlap. Qed.
 Print Assumptions C14_plus_refuses_overlap.
+
+Theorem C14_plus_on_disjoint_sets_is_the_union :
+  forall x y, NoDup (letters x) -> (forall d, In d x -> ~ In (dletter d) (letters y)) -> add_sets x y = union_with x y.
+Proof. exact add_disjoint_is_union. Qed.
+Print Assumptions C14_plus_on_disjoint_sets_is_the_union.
 
 Theorem C14_subset_in_requested_order :
   forall ds ks r, get_subset ds ks = Ok r -> Forall2 (fun k d => find_key ds k = Some d) ks r.
